@@ -199,6 +199,16 @@ def run_case(ck, desc):
         fo.M_, fo.tau_ = M, tau
         if not np.array_equal(np.asarray(fo.forecast_cum(t), dtype=float), got):
             ck.violation("forecast-uses-fitted-parameters", {}, desc)
+        # only ONE of the two given: the other one comes from the fit, the given one is honoured
+        fo.M_, fo.tau_ = desc["M2"], tau * 1.7
+        only_M = np.asarray(fo.forecast_cum(t, M=M), dtype=float)
+        only_tau = np.asarray(fo.forecast_cum(t, tau=tau), dtype=float)
+        w1 = M * np.asarray(f(t / (tau * 1.7)), dtype=float)
+        w2 = desc["M2"] * np.asarray(f(t / tau), dtype=float)
+        for nm, g, w in (("M given, tau fitted", only_M, w1), ("tau given, M fitted", only_tau, w2)):
+            sc1 = float(np.max(np.abs(w))) + 1e-300
+            if not ck.margin("forecast = M rf(t/tau) (one parameter given)", float(np.max(np.abs(g - w))) / sc1, 1e-14):
+                ck.violation("forecast=M*rf(t/tau)", {"which": nm, "rel": float(np.max(np.abs(g - w))) / sc1}, desc)
         ck.count("scaling_cases")
         return bool(np.sum(want > 0) >= 20), {"M": M, "tau": tau}
 
